@@ -324,3 +324,147 @@ pub fn check(sc: Scen, cap: u64, acc: &mut Acc) {
         acc.samples.push(json!({"kind": "poison", "scenario": format!("{:?}", sc), "executions": *n.borrow(), "complete": out.complete}));
     }
 }
+
+// ---------------------------------------------------------------------------------------------
+// C06, disconnection clause, with the other side dropped by a panic that is caught inside its task:
+// "once the other side is gone send fails and recv drains the remaining messages before reporting
+// disconnection; a blocked sender or receiver is always released when a disconnection arrives".
+
+#[derive(Clone, Copy, Debug, PartialEq)]
+pub enum ChanScen {
+    /// the receiver is dropped by a caught panic; afterwards send must fail
+    RxDroppedThenSend,
+    /// the only sender is dropped by a caught panic after sending k messages; recv must drain them and then report disconnection
+    TxDroppedThenRecv(usize),
+    /// a sender blocked on a full bounded channel must be released (with an error) when the receiver goes away
+    BlockedSenderRxDropped,
+    /// a receiver blocked on an empty channel must be released when the last sender goes away
+    BlockedReceiverTxDropped,
+}
+
+const T_CH: u32 = 7200; // a = code, b = value
+
+fn chan_body(sc: ChanScen) {
+    use shuttle::sync::mpsc::{channel, sync_channel};
+    match sc {
+        ChanScen::RxDroppedThenSend => {
+            let (tx, rx) = channel::<i64>();
+            let t = shuttle::thread::spawn(move || {
+                let r = catch_unwind(AssertUnwindSafe(move || {
+                    let _rx = rx;
+                    panic!("deliberate panic that owns the receiver");
+                }));
+                body_event(T_PANICKED, r.is_err() as i64, 0);
+            });
+            t.join().unwrap();
+            body_event(T_CH, 1, tx.send(5).is_err() as i64);
+        }
+        ChanScen::TxDroppedThenRecv(k) => {
+            let (tx, rx) = channel::<i64>();
+            let t = shuttle::thread::spawn(move || {
+                let r = catch_unwind(AssertUnwindSafe(move || {
+                    let tx = tx;
+                    for i in 0..k {
+                        tx.send(10 + i as i64).unwrap();
+                    }
+                    panic!("deliberate panic that owns the sender");
+                }));
+                body_event(T_PANICKED, r.is_err() as i64, 0);
+            });
+            for i in 0..k {
+                body_event(T_CH, 2, (rx.recv() == Ok(10 + i as i64)) as i64);
+            }
+            body_event(T_CH, 3, rx.recv().is_err() as i64);
+            t.join().unwrap();
+        }
+        ChanScen::BlockedSenderRxDropped => {
+            let (tx, rx) = sync_channel::<i64>(1);
+            tx.send(1).unwrap();
+            let s = shuttle::thread::spawn(move || {
+                // blocks: the channel is full
+                body_event(T_CH, 4, tx.send(2).is_err() as i64);
+            });
+            let t = shuttle::thread::spawn(move || {
+                let r = catch_unwind(AssertUnwindSafe(move || {
+                    let _rx = rx;
+                    shuttle::thread::yield_now();
+                    panic!("deliberate panic that owns the receiver");
+                }));
+                body_event(T_PANICKED, r.is_err() as i64, 0);
+            });
+            t.join().unwrap();
+            s.join().unwrap();
+        }
+        ChanScen::BlockedReceiverTxDropped => {
+            let (tx, rx) = channel::<i64>();
+            let t = shuttle::thread::spawn(move || {
+                let r = catch_unwind(AssertUnwindSafe(move || {
+                    let _tx = tx;
+                    shuttle::thread::yield_now();
+                    panic!("deliberate panic that owns the sender");
+                }));
+                body_event(T_PANICKED, r.is_err() as i64, 0);
+            });
+            body_event(T_CH, 3, rx.recv().is_err() as i64);
+            t.join().unwrap();
+        }
+    }
+}
+
+pub fn chan_scenarios() -> Vec<ChanScen> {
+    vec![ChanScen::RxDroppedThenSend, ChanScen::TxDroppedThenRecv(0), ChanScen::TxDroppedThenRecv(2), ChanScen::BlockedSenderRxDropped, ChanScen::BlockedReceiverTxDropped]
+}
+
+pub fn check_chan(sc: ChanScen, cap: u64, acc: &mut Acc) {
+    let bad: Rc<RefCell<Vec<(String, String, Vec<u32>)>>> = Rc::new(RefCell::new(vec![]));
+    let n = Rc::new(RefCell::new(0u64));
+    let hashes: Rc<RefCell<Vec<u64>>> = Rc::new(RefCell::new(vec![]));
+    let (b2, n2, h2) = (bad.clone(), n.clone(), hashes.clone());
+    let mut cfg = rec::base_config();
+    cfg.max_steps = shuttle::MaxSteps::FailAfter(5_000);
+    let out = explore::enumerate(move || chan_body(sc), cfg, cap, move |f, term| {
+        *n2.borrow_mut() += 1;
+        if rec::nontrivial(&f.log) {
+            h2.borrow_mut().push(rec::hash_choices(&f.log));
+        }
+        if b2.borrow().len() >= 3 || std::thread::panicking() {
+            return;
+        }
+        let choices = rec::choice_seq(&f.log);
+        let side = match sc {
+            ChanScen::RxDroppedThenSend | ChanScen::BlockedSenderRxDropped => "receiver",
+            _ => "sender",
+        };
+        match &term {
+            Term::Pass => {}
+            Term::Deadlock(_) => b2.borrow_mut().push((
+                format!("caught-panic-endpoint-drop-ignored:{side}"),
+                format!("{:?}: the {side} was dropped by a panic caught inside its task, but the task waiting for the disconnection was never released: {:?}", sc, term),
+                choices.clone(),
+            )),
+            t => b2.borrow_mut().push(("channel-program-failed".into(), format!("{:?} ended {:?}", sc, t), choices.clone())),
+        }
+        for e in &f.log.events {
+            if let Ev::Body { tag: T_CH, a, b, .. } = e {
+                if *b != 1 {
+                    let what = match *a {
+                        1 => "send succeeded although the receiver had been dropped",
+                        2 => "a message sent before the sender was dropped was not received in order",
+                        3 => "recv did not report disconnection after the last sender had been dropped",
+                        _ => "a sender blocked on a full channel was released without an error after the receiver had been dropped",
+                    };
+                    b2.borrow_mut().push((format!("caught-panic-endpoint-drop-ignored:{side}"), format!("{:?}: the {side} was dropped by a panic caught inside its task: {what}", sc), choices.clone()));
+                }
+            }
+        }
+    });
+    acc.evaluations += *n.borrow();
+    acc.distinct.extend(hashes.borrow().iter().copied());
+    acc.add("caught_panic_channel_scenarios", 1);
+    if out.complete {
+        acc.add("caught_panic_channel_scenarios_completely_enumerated", 1);
+    }
+    for (sig, what, choices) in bad.borrow().iter() {
+        acc.violation(sig, what.clone(), json!({"scenario": format!("{:?}", sc), "choices": choices}));
+    }
+}
